@@ -275,6 +275,7 @@ func genFindings(w *kit.Out) {
 	emitMs(w, msShape{1, "en", fixedMsg, wfBits(2, []int{0, 1}), []string{"w0", "k0"}}) // fails before reaching it
 	// the ante handler's gas consumer walks the same structure unchecked
 	w.Op("gas ese %s 2", wfBits(3, []int{0, 1, 2}))
+	w.Op("gas e 2:c0 2") // bit array larger than the key list: pubkey.PubKeys[1]
 	w.Op("gas e 9:80 1")
 	w.Op("gas es %s 2", wfBits(2, []int{0, 1}))
 	w.Op("gas ese %s 3", wfBits(3, []int{0, 2}))
@@ -687,7 +688,7 @@ func genGas(w *kit.Out, r *kit.Rand, count int) {
 func gen(w *kit.Out, r *kit.Rand, tier string) {
 	scale := 1
 	if tier == "thorough" {
-		scale = 4
+		scale = 12
 	}
 	rb, rr, rm, rbu, rs, rba, rg := r.Fork(), r.Fork(), r.Fork(), r.Fork(), r.Fork(), r.Fork(), r.Fork()
 	msgs := [][]byte{fixedMsg, {}, rr.Bytes(32), rr.Bytes(1 + rr.Intn(90))}
